@@ -379,6 +379,31 @@ pub fn run(args: &Args) {
                 run_frames(&mut emu, &mut out, 2, 1);
             }
 
+            // 128K: the program switches to the other screen bank while the beam is inside the picture, and nothing is
+            // written afterwards: from the next whole frame on every frame shows the bank now displayed
+            if m128 && !locked {
+                let frame_len = FRAME_128;
+                let cur = emu.verif_frame_clocks();
+                let t = 16_000 + r.below(40_000) as usize;
+                if t > cur {
+                    emu.verif_wait(t - cur);
+                }
+                let (latch, _) = emu.verif_paging();
+                cpu_out(&mut emu, 0x7FFD, (latch ^ 8) & 0x1F);
+                idle(&mut emu);
+                let now_shadow = (latch ^ 8) & 8 != 0;
+                let visible: Vec<u8> = emu.verif_ram_bank(if now_shadow { 7 } else { 5 })[..6912].to_vec();
+                out.ev(json!({"ev":"screen","bytes":visible,"delivered_equal": true}));
+                let _ = frame_len;
+                run_frames(&mut emu, &mut out, 5, 1);
+                // and back, at a frame boundary this time
+                cpu_out(&mut emu, 0x7FFD, latch & 0x1F);
+                idle(&mut emu);
+                let visible: Vec<u8> = emu.verif_ram_bank(if now_shadow { 5 } else { 7 })[..6912].to_vec();
+                out.ev(json!({"ev":"screen","bytes":visible,"delivered_equal": true}));
+                run_frames(&mut emu, &mut out, 2, 1);
+            }
+
             // beam-relative writes
             if beam > 0 && pi < 4 {
                 let frame_len = if m128 { FRAME_128 } else { FRAME_48 };
